@@ -4,6 +4,10 @@
 // every literal / attached source block and every const char* input block is compared with its original after every operation.
 // State classes are observed non-invasively through -fno-access-control (the C-string view of an unterminated attached String
 // detaches it, so the public view of such a variable is only sampled with a per-case probability).
+// Two build flavours (HARNESS_GUIDE.md, last section): with -DVERIF_NO_PRIVATE nothing private is named; the state classes then come from the harness's own record of
+// what it did with every String object (section "state classes"), bytes are compared through the C-string view or, when the view is not taken, through operator==/!=,
+// and pointer results are turned into offsets relative to the attached memory / the view. In the normal flavour the record is kept too and compared with the private
+// state (counters state_record_agrees_with_private_state / ..._differs_...).
 #include "vh.hpp"
 #include <nstd/String.hpp>
 #include <nstd/List.hpp>
@@ -89,7 +93,8 @@ static const char* const argName[A_N] = { "self", "var", "copy-of-self", "copy-o
 static const size_t MAXLEN = 6000;     // generator keeps variables below this length
 static const size_t BIGLEN = 2500;     // a receiver longer than this is shrunk before anything else
 
-struct Slot { String* s; Bytes m; int src; int argcls; };
+// ek / eg / ap: the harness's own record of how the String in this slot got its value (see "state classes" below)
+struct Slot { String* s; Bytes m; int src; int argcls; int ek; u64 eg; const char* ap; };
 static Slot S[NSLOT];
 static int nvars;
 static Rng* g_r;
@@ -105,11 +110,44 @@ static long g_bytesCompared = 0, g_varChecks = 0, g_viewChecks = 0, g_srcChecks 
 
 static String& str(int i) { return *S[i].s; }
 
+// ------------------------------------------------------------------------------------------------ state classes
+// normal flavour: read non-invasively from the private representation.
+// VERIF_NO_PRIVATE flavour: the harness's own record of what it did with each String object: ek = how the slot got its value (default-constructed / literal or terminated attach /
+// unterminated attach / a buffer of its own), eg = which buffer (copies of an owning String get the same number), updated by every operation with what the operation is documented
+// (or, for the hidden "takes the C-string view" step, known) to do. Holders the harness does not keep in a slot (list elements, results alive for one operation) are not counted,
+// so the record can say "owned-exclusive" while a short-lived copy still shares the buffer. No verdict depends on the record: it names the class in context keys and evidence,
+// decides whether the (state-changing) C-string view of an unterminated attached variable is sampled or always taken, and steers the choice of receivers.
+#ifndef VERIF_NO_PRIVATE
 static int stateOf(const String& s) {
   if (s.data == &String::emptyData) return ST_EMPTY;
   if (s.data == &s._data) return s.data->str[s.data->len] ? ST_UNTERM : ST_LIT;
   return s.data->ref == 1 ? ST_EXCL : ST_SHARED;
 }
+#endif
+static u64 g_eg = 0;
+static u64 g_held[16]; static int g_nHeld = 0;   // buffers held by copies that the running operation put into a List / HashSet argument
+static void eHeldByContainer(int j) { if (S[j].ek == ST_EXCL && g_nHeld < 16) g_held[g_nHeld++] = S[j].eg; }
+static int recordedState(int i) {
+  if (S[i].ek != ST_EXCL) return S[i].ek;
+  for (int j = 0; j < NSLOT; ++j) if (j != i && S[j].s && S[j].ek == ST_EXCL && S[j].eg == S[i].eg) return ST_SHARED;
+  for (int j = 0; j < g_nHeld; ++j) if (g_held[j] == S[i].eg) return ST_SHARED;
+  return ST_EXCL;
+}
+static int stateOfSlot(int i) {
+#ifndef VERIF_NO_PRIVATE
+  return stateOf(*S[i].s);
+#else
+  return recordedState(i);
+#endif
+}
+static void eSet(int i, int kind, const char* ap = 0) { S[i].ek = kind; S[i].eg = kind == ST_EXCL ? ++g_eg : 0; if (ap) S[i].ap = ap; }
+static void eOwn(int i) { eSet(i, ST_EXCL); }                                             // a fresh buffer of its own
+static void eMutated(int i) { if (recordedState(i) != ST_EXCL) eOwn(i); }                 // a mutating member: afterwards the receiver owns its buffer exclusively
+static void eViewed(int i) { if (S[i].ek == ST_UNTERM) eOwn(i); }                         // the C-string view of an unterminated attached String makes a terminated private copy
+static void eCleared(int i) { if (recordedState(i) != ST_EXCL) eSet(i, ST_EMPTY); }       // clear(): keeps an exclusively owned buffer, lets go of anything else
+static void eCopyOf(int j, int& ek, u64& eg) { if (S[j].ek == ST_EXCL) { ek = ST_EXCL; eg = S[j].eg; } else if (S[j].ek == ST_EMPTY) { ek = ST_EMPTY; eg = 0; } else { ek = ST_EXCL; eg = ++g_eg; } }   // String(const String&)
+static void eAssigned(int i, int j) { if (S[j].ek == ST_EXCL) { S[i].ek = ST_EXCL; S[i].eg = S[j].eg; } else eOwn(i); }   // operator=(const String&): shares an owning source, copies anything else
+static long g_recAgree = 0, g_recDiffer = 0;
 
 static void failk(const char* what, const char* fmt, ...) __attribute__((noreturn, format(printf, 2, 3)));
 static void failk(const char* what, const char* fmt, ...) {
@@ -213,7 +251,7 @@ static void genNeedle(Bytes& b, const Bytes* hay, bool nonEmpty) {
 }
 
 static void histVal(const Bytes& b) { hist.add("\""); hist.addEsc(b.d, b.n > 40 ? 40 : b.n); hist.add("\""); if (b.n > 40) hist.addf("..(len %lu)", (unsigned long)b.n); }
-static void histSlot(int s) { if (s < MAXV) hist.addf("v%d", s); else hist.addf("<%s>", argName[S[s].argcls]); hist.addf("[%s]=", stName[stateOf(str(s))]); histVal(S[s].m); }
+static void histSlot(int s) { if (s < MAXV) hist.addf("v%d", s); else hist.addf("<%s>", argName[S[s].argcls]); hist.addf("[%s]=", stName[stateOfSlot(s)]); histVal(S[s].m); }
 
 // ------------------------------------------------------------------------------------------------ oracle: one String against its model
 // non-invasive part (private peek) + public view. `invasiveOk`: the view may be taken even if it changes the representation.
@@ -221,9 +259,17 @@ static void checkStr(String& s, const Bytes& m, const char* role, bool takeView)
   size_t len = s.length(); ++g_varChecks;
   if (len != m.n) failk(role, "%s: length() = %lu, model %lu", role, (unsigned long)len, (unsigned long)m.n);
   if (s.isEmpty() != (m.n == 0)) failk(role, "%s: isEmpty() = %d with model length %lu", role, (int)s.isEmpty(), (unsigned long)m.n);
+#ifndef VERIF_NO_PRIVATE
   const char* raw = s.data->str;
   if (len && memcmp(raw, m.d, len)) { size_t k = 0; while ((u8)raw[k] == m.d[k]) ++k; failk(role, "%s: byte %lu of %lu is 0x%02x, model 0x%02x", role, (unsigned long)k, (unsigned long)len, (u8)raw[k], m.d[k]); }
   g_bytesCompared += (long)len;
+#else
+  if (!takeView) {   // the view is not taken this time (it would change the state): the bytes are compared through operator== / != with a String attached to the model's (terminated) bytes
+    String ms; ms.attach((const char*)m.d, m.n);
+    if (!(s == ms) || s != ms) failk(role, "%s: content differs from the model (%lu bytes, compared through operator== because the C-string view is not taken in this check)", role, (unsigned long)len);
+    g_bytesCompared += (long)len;
+  }
+#endif
   if (takeView) {
     const char* view; if (R.chance(1, 2)) view = s; else { const String& cs = s; view = cs; }
     ++g_viewChecks;
@@ -235,10 +281,11 @@ static void checkStr(String& s, const Bytes& m, const char* role, bool takeView)
 }
 static const char* roleOf(int i) { return i == g_recv ? "receiver-content" : (i == g_a1 || i == g_a2) ? "argument-changed" : "bystander-changed"; }
 static void checkSlot(int i) {
-  String& s = str(i); int st = stateOf(s);
+  String& s = str(i); int st = stateOfSlot(i);
   if (st == ST_SHARED) g_sawShared = true;
   bool view = st != ST_UNTERM || R.below((u64)g_viewDen) == 0;
   checkStr(s, S[i].m, roleOf(i), view);
+  if (view) eViewed(i);
 }
 static void checkAll() {
   for (int i = 0; i < NSLOT; ++i) if (S[i].s) checkSlot(i);
@@ -267,14 +314,17 @@ static void noteMatrix(const char* op, int rs, int acls, int ast) {
   setItem("matrix_op_recv_arg", item);
 }
 static void ctxOp(const char* op, int recv, int a1, int a2, bool mut) {
-  int rs = recv >= 0 ? stateOf(str(recv)) : -1;
+  int rs = recv >= 0 ? stateOfSlot(recv) : -1;
+#ifndef VERIF_NO_PRIVATE
+  if (recv >= 0) { if (recordedState(recv) == rs) ++g_recAgree; else ++g_recDiffer; }   // how good the fallback flavour's record is (evidence only)
+#endif
   char buf[240]; int k = snprintf(buf, sizeof buf, "String.%s", op);
   if (rs >= 0) k += snprintf(buf + k, sizeof buf - k, "/recv=%s", stName[rs]);
   if (a1 >= 0) k += snprintf(buf + k, sizeof buf - k, "/arg=%s", argName[S[a1].argcls]);
   if (a2 >= 0) k += snprintf(buf + k, sizeof buf - k, "+%s", argName[S[a2].argcls]);
   setctxf("%s", buf);
-  noteMatrix(op, rs, a1 >= 0 ? S[a1].argcls : -1, a1 >= 0 ? stateOf(str(a1)) : -1);
-  if (a2 >= 0) noteMatrix(op, rs, S[a2].argcls, stateOf(str(a2)));
+  noteMatrix(op, rs, a1 >= 0 ? S[a1].argcls : -1, a1 >= 0 ? stateOfSlot(a1) : -1);
+  if (a2 >= 0) noteMatrix(op, rs, S[a2].argcls, stateOfSlot(a2));
   g_fp = mix(g_fp, hashName(op) ^ ((u64)(rs + 1) << 8) ^ ((u64)(a1 >= 0 ? S[a1].argcls + 1 : 0) << 12) ^ ((u64)(a2 >= 0 ? S[a2].argcls + 1 : 0) << 16));
   bool self = (a1 >= 0 && a1 == recv) || (a2 >= 0 && a2 == recv);
   bool selfShare = (a1 >= 0 && S[a1].argcls == A_COPY_SELF) || (a2 >= 0 && S[a2].argcls == A_COPY_SELF);
@@ -300,13 +350,13 @@ static bool exclPrefix(const char* prefix) {
 // ------------------------------------------------------------------------------------------------ String-typed arguments
 // Returns the slot that holds the argument. want: preferred content for the temp classes. mask: allowed classes (bit per A_*).
 // nonEmpty: the argument value must not be empty (replace needle).
-static void setTempOwned(int t, const Bytes& b) { setctx("String.String(buf+len)/arg-setup"); S[t].s = new String(cblock(b.d, b.n, false), b.n); S[t].m = b; S[t].src = -1; S[t].argcls = A_OWNED_TMP; }
+static void setTempOwned(int t, const Bytes& b) { setctx("String.String(buf+len)/arg-setup"); S[t].s = new String(cblock(b.d, b.n, false), b.n); S[t].m = b; S[t].src = -1; S[t].argcls = A_OWNED_TMP; S[t].ap = 0; eOwn(t); }
 static void setTempLit(int t, const Bytes& b) {
-  if (litOk(b.n) && R.chance(2, 3)) { setctx("String.String(literal)/arg-setup"); int si = literalSrc(b); S[t].s = newLiteral(g_src[si].blk, b.n + 1); S[t].src = si; }
-  else { setctx("String.attach/arg-setup"); size_t off; int si = attachSrc(b, true, off); S[t].s = new String; S[t].s->attach((const char*)g_src[si].blk + off, b.n); S[t].src = si; }
+  if (litOk(b.n) && R.chance(2, 3)) { setctx("String.String(literal)/arg-setup"); int si = literalSrc(b); S[t].s = newLiteral(g_src[si].blk, b.n + 1); S[t].src = si; eSet(t, ST_LIT, (const char*)g_src[si].blk); }
+  else { setctx("String.attach/arg-setup"); size_t off; int si = attachSrc(b, true, off); S[t].s = new String; S[t].s->attach((const char*)g_src[si].blk + off, b.n); S[t].src = si; eSet(t, ST_LIT, (const char*)g_src[si].blk + off); }
   S[t].m = b; S[t].argcls = A_LIT_TMP;
 }
-static void setTempUnterm(int t, const Bytes& b) { setctx("String.attach/arg-setup"); size_t off; int si = attachSrc(b, false, off); S[t].s = new String; S[t].s->attach((const char*)g_src[si].blk + off, b.n); S[t].src = si; S[t].m = b; S[t].argcls = A_UNTERM_TMP; }
+static void setTempUnterm(int t, const Bytes& b) { setctx("String.attach/arg-setup"); size_t off; int si = attachSrc(b, false, off); S[t].s = new String; S[t].s->attach((const char*)g_src[si].blk + off, b.n); S[t].src = si; S[t].m = b; S[t].argcls = A_UNTERM_TMP; eSet(t, ST_UNTERM, (const char*)g_src[si].blk + off); }
 static int mkArg(int recv, int t, const Bytes* want, unsigned mask = (1u << A_N) - 1, bool nonEmpty = false) {
   static const int w[A_N] = { 22, 16, 12, 10, 18, 11, 11 };
   if (recv < 0) mask &= ~((1u << A_SELF) | (1u << A_COPY_SELF));
@@ -321,7 +371,7 @@ static int mkArg(int recv, int t, const Bytes* want, unsigned mask = (1u << A_N)
     switch (c) {
     case A_SELF: S[recv].argcls = A_SELF; return recv;
     case A_VAR: S[j].argcls = A_VAR; return j;
-    case A_COPY_SELF: case A_COPY_VAR: setctx("String.String(String)/arg-setup"); S[t].s = new String(str(j)); S[t].m = S[j].m; S[t].src = -1; S[t].argcls = c; return t;
+    case A_COPY_SELF: case A_COPY_VAR: setctx("String.String(String)/arg-setup"); S[t].s = new String(str(j)); S[t].m = S[j].m; S[t].src = -1; S[t].argcls = c; S[t].ap = 0; eCopyOf(j, S[t].ek, S[t].eg); return t;
     default: {
       Bytes b; if (want) b = *want; else genBytes(b, c == A_LIT_TMP ? genLitLen() : genLen());
       if (nonEmpty && !b.n) b.push(g_alpha[0]);
@@ -337,25 +387,25 @@ static const unsigned MASK_NOSELF = ((1u << A_N) - 1) & ~(1u << A_SELF);
 // Every op: build arguments, set context + history line, call the library, update the model, afterOp() (= check everything).
 // Returns false when the op was not applicable (nothing was called).
 
-static void installNew(int i, String* ns, const Bytes& m, int src) { const char* saved = (const char*)ctx; setctx("String.~String/replace-variable"); delete S[i].s; setctx(saved); S[i].s = ns; S[i].m = m; S[i].src = src; }
+static void installNew(int i, String* ns, const Bytes& m, int src, int ek, u64 eg, const char* ap) { const char* saved = (const char*)ctx; setctx("String.~String/replace-variable"); delete S[i].s; setctx(saved); S[i].s = ns; S[i].m = m; S[i].src = src; S[i].ek = ek; S[i].eg = eg; S[i].ap = ap; }
 
 static bool op_construct(int i) {
   int kind = (int)R.below(9); if (g_nul && kind == 6) kind = 2;
-  Bytes b; String* ns = 0; int src = -1;
+  Bytes b; String* ns = 0; int src = -1; int ek = ST_EXCL; u64 eg = ++g_eg; const char* ap = 0;   // record: a buffer of its own unless said otherwise below
   switch (kind) {
-  case 0: ctxOp("String()", -1, -1, -1, false); hist.addf("v%d := String()\n", i); ns = new String; break;
-  case 1: { genBytes(b, genLitLen()); src = literalSrc(b); ctxOp("String(literal)", -1, -1, -1, false); hist.addf("v%d := String(literal ", i); histVal(b); hist.add(")\n"); ns = newLiteral(g_src[src].blk, b.n + 1); break; }
+  case 0: ctxOp("String()", -1, -1, -1, false); hist.addf("v%d := String()\n", i); ns = new String; ek = ST_EMPTY; eg = 0; break;
+  case 1: { genBytes(b, genLitLen()); src = literalSrc(b); ctxOp("String(literal)", -1, -1, -1, false); hist.addf("v%d := String(literal ", i); histVal(b); hist.add(")\n"); ns = newLiteral(g_src[src].blk, b.n + 1); ek = ST_LIT; eg = 0; ap = (const char*)g_src[src].blk; break; }
   case 2: { genBytes(b, genLen()); const char* p = cblock(b.d, b.n, false); ctxOp("String(buf+len)", -1, -1, -1, false); hist.addf("v%d := String(buf ", i); histVal(b); hist.add(")\n"); ns = new String(p, b.n); break; }
   case 3: { size_t n = genLen(); u8 c = genChar(); u8* t = (u8*)malloc(n + 1); memset(t, c, n); b.assign(t, n); free(t); ctxOp("String(len+char)", -1, -1, -1, false); hist.addf("v%d := String(%lu, 0x%02x)\n", i, (unsigned long)n, c); ns = new String((usize)n, (char)c); break; }
   case 4: { size_t cap = genLen(); ctxOp("String(capacity)", -1, -1, -1, false); hist.addf("v%d := String(capacity %lu)\n", i, (unsigned long)cap); ns = new String((usize)cap);
       if (ns->capacity() < cap) failk("capacity", "capacity() = %lu after String(capacity %lu)", (unsigned long)ns->capacity(), (unsigned long)cap); break; }
-  case 5: case 8: { int a = mkArg(i, T0, 0); ctxOp("String(String)", -1, a, -1, false); hist.addf("v%d := String(copy of ", i); histSlot(a); hist.add(")\n"); b = S[a].m; ns = new String(str(a)); cnt("op_copy_construct"); break; }
+  case 5: case 8: { int a = mkArg(i, T0, 0); ctxOp("String(String)", -1, a, -1, false); hist.addf("v%d := String(copy of ", i); histSlot(a); hist.add(")\n"); b = S[a].m; ns = new String(str(a)); eCopyOf(a, ek, eg); cnt("op_copy_construct"); break; }
   case 6: { genBytes(b, genLen(), false); const char* p = cstrOf(b); ctxOp("fromCString(cstr)", -1, -1, -1, false); hist.addf("v%d := fromCString(", i); histVal(b); hist.add(")\n"); ns = new String(String::fromCString(p)); break; }
   default: { genBytes(b, genLen()); const char* p = cblock(b.d, b.n, false); ctxOp("fromCString(buf+len)", -1, -1, -1, false); hist.addf("v%d := fromCString(buf ", i); histVal(b); hist.add(")\n"); ns = new String(String::fromCString(p, b.n)); break; }
   }
   // the new value is checked before the old object is destroyed (the old object may be the copy source)
   checkStr(*ns, b, "result", true);
-  installNew(i, ns, b, src);
+  installNew(i, ns, b, src, ek, eg, ap);
   afterOp(i);
   return true;
 }
@@ -366,7 +416,7 @@ static bool op_assign(int i) {
   Bytes am(S[a].m);
   String& ret = (str(i) = str(a));
   if (&ret != &str(i)) failk("return", "operator= did not return *this");
-  S[i].m = am;
+  S[i].m = am; eAssigned(i, a);
   afterOp(i, a);
   return true;
 }
@@ -375,14 +425,14 @@ static bool op_attach(int i) {
   Bytes b; genBytes(b, genLen()); bool term = R.chance(1, 3); size_t off; int si = attachSrc(b, term, off);
   ctxOp(term ? "attach/terminated" : "attach/unterminated", i, -1, -1, true); hist.addf("v%d.attach(%s ", i, term ? "terminated" : "unterminated"); histVal(b); hist.add(")\n");
   str(i).attach((const char*)g_src[si].blk + off, b.n);
-  S[i].m = b; S[i].src = si;
+  S[i].m = b; S[i].src = si; eSet(i, term ? ST_LIT : ST_UNTERM, (const char*)g_src[si].blk + off);
   afterOp(i);
   return true;
 }
 
 static bool op_detach(int i) {
   ctxOp("detach", i, -1, -1, true); hist.addf("v%d.detach()\n", i);
-  str(i).detach();
+  str(i).detach(); eMutated(i);
   afterOp(i);
   return true;
 }
@@ -395,7 +445,7 @@ static bool op_appendS(int i) {
   Bytes am(S[a].m);
   String& ret = plus ? (str(i) += str(a)) : str(i).append(str(a));
   if (&ret != &str(i)) failk("return", "did not return *this");
-  S[i].m.append(am.d, am.n);
+  S[i].m.append(am.d, am.n); eMutated(i);
   afterOp(i, a);
   return true;
 }
@@ -406,7 +456,7 @@ static bool op_appendP(int i) {
   ctxOp("append(buf+len)", i, -1, -1, true); hist.addf("v%d.append(buf ", i); histVal(b); hist.add(")\n");
   String& ret = str(i).append(p, b.n);
   if (&ret != &str(i)) failk("return", "did not return *this");
-  S[i].m.append(b.d, b.n);
+  S[i].m.append(b.d, b.n); eMutated(i);
   afterOp(i);
   return true;
 }
@@ -416,7 +466,7 @@ static bool op_appendC(int i) {
   ctxOp(plus ? "operator+=(char)" : "append(char)", i, -1, -1, true); hist.addf("v%d.%s(0x%02x)\n", i, plus ? "operator+=" : "append", c);
   String& ret = plus ? (str(i) += (char)c) : str(i).append((char)c);
   if (&ret != &str(i)) failk("return", "did not return *this");
-  S[i].m.push(c);
+  S[i].m.push(c); eMutated(i);
   afterOp(i);
   return true;
 }
@@ -429,7 +479,7 @@ static bool op_prependS(int i) {
   Bytes nm(S[a].m); nm.append(S[i].m.d, S[i].m.n);
   String& ret = str(i).prepend(str(a));
   if (&ret != &str(i)) failk("return", "did not return *this");
-  S[i].m = nm;
+  S[i].m = nm; eMutated(i);
   afterOp(i, a);
   return true;
 }
@@ -441,7 +491,7 @@ static bool op_prependP(int i) {
   Bytes nm(b); nm.append(S[i].m.d, S[i].m.n);
   String& ret = str(i).prepend(p, b.n);
   if (&ret != &str(i)) failk("return", "did not return *this");
-  S[i].m = nm;
+  S[i].m = nm; eMutated(i);
   afterOp(i);
   return true;
 }
@@ -450,10 +500,15 @@ static bool op_resize(int i) {
   size_t old = S[i].m.n, n; unsigned p = (unsigned)R.below(100);
   if (p < 35) n = (size_t)R.below(old + 1); else if (p < 75) n = old + 1 + (size_t)R.below(8); else if (p < 90) n = genLen(); else n = old;
   ctxOp("resize", i, -1, -1, true); hist.addf("v%d.resize(%lu) then fill through operator char*\n", i, (unsigned long)n);
-  str(i).resize(n);
+  str(i).resize(n); eMutated(i);
   size_t keep = old < n ? old : n;
   if (str(i).length() != n) failk("receiver-content", "length() = %lu after resize(%lu)", (unsigned long)str(i).length(), (unsigned long)n);
-  if (keep && memcmp(str(i).data->str, S[i].m.d, keep)) failk("receiver-content", "resize(%lu) did not preserve the first %lu bytes", (unsigned long)n, (unsigned long)keep);
+#ifndef VERIF_NO_PRIVATE
+  const char* afterResize = str(i).data->str;
+#else
+  const char* afterResize = (const char*)(const String&)str(i);   // after resize() the String owns a terminated buffer: the view is that buffer
+#endif
+  if (keep && memcmp(afterResize, S[i].m.d, keep)) failk("receiver-content", "resize(%lu) did not preserve the first %lu bytes", (unsigned long)n, (unsigned long)keep);
   u8* t = (u8*)malloc(n + 1); if (keep) memcpy(t, S[i].m.d, keep);
   if (n > old) {   // bytes exposed by a growing resize are unspecified: write them through the mutable view before anything is compared
     char* w = str(i);
@@ -469,7 +524,7 @@ static bool op_reserve(int i) {
   size_t len = S[i].m.n, n; unsigned p = (unsigned)R.below(100);
   if (p < 30) n = (size_t)R.below(len + 1); else if (p < 70) n = len + (size_t)R.below(9); else n = genLen();
   ctxOp("reserve", i, -1, -1, true); hist.addf("v%d.reserve(%lu)\n", i, (unsigned long)n);
-  str(i).reserve(n);
+  str(i).reserve(n); eMutated(i);
   size_t need = n > len ? n : len;
   if (str(i).capacity() < need) failk("capacity", "capacity() = %lu after reserve(%lu) on length %lu", (unsigned long)str(i).capacity(), (unsigned long)n, (unsigned long)len);
   afterOp(i);
@@ -478,7 +533,7 @@ static bool op_reserve(int i) {
 
 static bool op_clear(int i) {
   ctxOp("clear", i, -1, -1, true); hist.addf("v%d.clear()\n", i);
-  str(i).clear(); S[i].m.assign("", 0);
+  str(i).clear(); S[i].m.assign("", 0); eCleared(i);
   afterOp(i);
   return true;
 }
@@ -486,7 +541,7 @@ static bool op_clear(int i) {
 static bool op_write(int i) {
   size_t n = S[i].m.n;
   ctxOp("operator-char*/write", i, -1, -1, true);
-  char* w = str(i);
+  char* w = str(i); eMutated(i);
   if (n) { size_t k = R.below(n); u8 c = genChar(); hist.addf("((char*)v%d)[%lu] = 0x%02x\n", i, (unsigned long)k, c); w[k] = (char)c; S[i].m.d[k] = c; }
   else hist.addf("(char*)v%d\n", i);
   if (w[n] != 0) failk("terminator", "mutable view has byte 0x%02x instead of NUL at length() = %lu", (u8)w[n], (unsigned long)n);
@@ -501,12 +556,13 @@ static bool op_replaceC(int i) {
   String& ret = str(i).replace((char)nd, (char)rp);
   if (&ret != &str(i)) failk("return", "did not return *this");
   for (size_t k = 0; k < S[i].m.n; ++k) if (S[i].m.d[k] == nd) S[i].m.d[k] = rp;
+  eMutated(i);
   afterOp(i);
   return true;
 }
 
 static bool op_replaceS(int i) {
-  if (exclPrefix(K_REPLACE_UNTERM) && stateOf(str(i)) == ST_UNTERM) return false;
+  if (exclPrefix(K_REPLACE_UNTERM) && stateOfSlot(i) == ST_UNTERM) return false;
   Bytes nd; genNeedle(nd, &S[i].m, true);
   int a = mkArg(i, T0, &nd, (1u << A_N) - 1, true);
   Bytes rp; if (R.chance(3, 4)) genNeedle(rp, 0, false); else genBytes(rp, genLen() % 24, false);
@@ -514,12 +570,12 @@ static bool op_replaceS(int i) {
   Bytes res; bool tooBig; mReplace(S[i].m, S[a].m, S[b].m, res, MAXLEN, tooBig);
   if (tooBig) { dropTemps(); return false; }
   ctxOp("replace(String)", i, a, b, true); hist.addf("v%d.replace(", i); histSlot(a); hist.add(", "); histSlot(b); hist.add(")\n");
-  if (mFind(S[i].m, 0, S[a].m.d, S[a].m.n) >= 0) cnt("replace_with_match");
+  bool hasMatch = mFind(S[i].m, 0, S[a].m.d, S[a].m.n) >= 0; if (hasMatch) cnt("replace_with_match");
   cpuBudget(10, "String.replace(String)/nonterminating");
   String& ret = str(i).replace(str(a), str(b));
   cpuBudget(0, 0);
   if (&ret != &str(i)) failk("return", "did not return *this");
-  S[i].m = res;
+  S[i].m = res; eViewed(i); eViewed(a); if (hasMatch) eOwn(i);   // searches through the C-string views; a match gives the receiver a new buffer
   afterOp(i, a, b);
   return true;
 }
@@ -530,6 +586,7 @@ static bool op_case(int i) {
   String& ret = up ? str(i).toUpperCase() : str(i).toLowerCase();
   if (&ret != &str(i)) failk("return", "did not return *this");
   for (size_t k = 0; k < S[i].m.n; ++k) S[i].m.d[k] = up ? mUpper(S[i].m.d[k]) : mLower(S[i].m.d[k]);
+  eMutated(i);
   afterOp(i);
   return true;
 }
@@ -546,7 +603,7 @@ static bool op_trim(int i) {
     mTrim(S[i].m, ch.d, ch.n, res);
     String& ret = str(i).trim(p); if (&ret != &str(i)) failk("return", "did not return *this");
   }
-  if (res.n != S[i].m.n) cnt("trim_changed");
+  if (res.n != S[i].m.n) { cnt("trim_changed"); eOwn(i); }   // a trim that removes nothing leaves the String as it is
   S[i].m = res;
   afterOp(i);
   return true;
@@ -592,7 +649,7 @@ static bool op_printf(int i) {
 #define PF_CALLM(ARGS) rc = str(i).printf(PF_UNPACK ARGS)
   PF_SWITCH(PF_CALLM)
   if (rc != (int)c.expect.n) failk("return", "printf returned %d, formatted length is %lu", rc, (unsigned long)c.expect.n);
-  S[i].m = c.expect;
+  S[i].m = c.expect; eMutated(i);
   afterOp(i);
   return true;
 }
@@ -602,7 +659,7 @@ static void storeResult(const String& res, const Bytes& m) {
   if (!R.chance(2, 5)) return;
   int k = (int)R.below((u64)nvars);
   ctxOp("operator=(String)/from-result", k, -1, -1, true); hist.addf("v%d = result\n", k);
-  str(k) = res; S[k].m = m;
+  str(k) = res; S[k].m = m; eOwn(k);   // shares the buffer of a result that is destroyed at the end of the operation
   afterOp(k, -1, -1, false);
 }
 static void checkResult(String& res, const Bytes& m) { ++g_resultChecks; checkStr(res, m, "result", true); }
@@ -627,19 +684,19 @@ static bool op_join(int i) {
   setctx("List<String>.append/arg-setup");
   for (int t = 0; t < k; ++t) {
     int a = mkArg(i, T0, 0);   // A_SELF here means: the list holds a copy of the receiver (shares its buffer)
-    setctx("List<String>.append/arg-setup"); l->append(str(a)); toks.push(S[a].m); total += S[a].m.n + 1;
+    setctx("List<String>.append/arg-setup"); l->append(str(a)); eHeldByContainer(a); toks.push(S[a].m); total += S[a].m.n + 1;
     if (S[T0].s) { delete S[T0].s; S[T0].s = 0; S[T0].src = -1; }
   }
-  if (total > MAXLEN) { delete l; dropTemps(); return false; }
+  if (total > MAXLEN) { delete l; g_nHeld = 0; dropTemps(); return false; }
   ctxOp("join", i, -1, -1, true); hist.addf("v%d.join(%d tokens, 0x%02x)\n", i, k, sep);
   Bytes res; for (int t = 0; t < k; ++t) { if (t) res.push(sep); res.append(toks[t].d, toks[t].n); }
   String& ret = str(i).join(*l, (char)sep);
   if (&ret != &str(i)) failk("return", "did not return *this");
-  S[i].m = res;
+  S[i].m = res; eCleared(i); if (k) eMutated(i);
   int t = 0; for (List<String>::Iterator it = l->begin(), e = l->end(); it != e; ++it, ++t) { if (t >= k) failk("argument-changed", "token list grew"); checkStr(*it, toks[t], "argument-changed", true); }
   if (t != k) failk("argument-changed", "token list shrank from %d to %d", k, t);
   afterOp(i);
-  setctx("List<String>.~List/arg-teardown"); delete l;
+  setctx("List<String>.~List/arg-teardown"); delete l; g_nHeld = 0;
   return true;
 }
 
@@ -673,6 +730,7 @@ static bool op_token(int i) {
   ctxOp(charForm ? "token(char)" : "token(set)", i, -1, -1, false);
   hist.addf("v%d.token(%s ", i, charForm ? "char" : "set"); histVal(seps); hist.addf(") %s\n", loop ? "loop from 0" : "single call");
   if (loop) {
+    if (n) eViewed(i);   // token() searches through the C-string view
     usize start = 0; size_t ms = 0; size_t rounds = 0; String first; Bytes firstM;
     while (ms < n) {
       if (++rounds > n + 2) failk("result", "token loop did not reach the end after %lu rounds", (unsigned long)rounds);
@@ -690,6 +748,7 @@ static bool op_token(int i) {
     // the char form checks start >= length() itself; the set form takes a cursor inside the text
     usize start = charForm ? (usize)R.below(n + 4) : (usize)R.below(n + 1); size_t ms = start; Bytes m;
     hist.addf("  start=%lu\n", (unsigned long)start);
+    if (!charForm || start < n) eViewed(i);
     mToken(S[i].m, seps.d, seps.n, ms, m);
     String res = charForm ? str(i).token((char)sc, start) : str(i).token(sp, start);
     checkResult(res, m);
@@ -724,24 +783,24 @@ static bool op_split(int i) {
   Vec<Bytes> toks; mSplit(S[i].m, seps.d, seps.n, skipEmpty, toks);
   if (R.chance(1, 2)) {
     List<String>* l = new List<String>; setctx("List<String>.append/arg-setup");
-    for (int t = (int)R.below(4); t > 0; --t) l->append(str((int)R.below((u64)nvars)));   // stale content that shares buffers with the variables
+    for (int t = (int)R.below(4); t > 0; --t) { int v = (int)R.below((u64)nvars); l->append(str(v)); eHeldByContainer(v); }   // stale content that shares buffers with the variables
     ctxOp("split(List)", i, -1, -1, false); hist.addf("v%d.split(List, ", i); histVal(seps); hist.addf(", skipEmpty=%d)\n", (int)skipEmpty);
-    usize cntRet = defArg ? str(i).split(*l, sp) : str(i).split(*l, sp, skipEmpty);
+    usize cntRet = defArg ? str(i).split(*l, sp) : str(i).split(*l, sp, skipEmpty); eViewed(i); g_nHeld = 0;   // split() walks the C-string view and replaces the old content of the container
     if (cntRet != toks.n || l->size() != toks.n) failk("result", "split returned %lu / list size %lu, model %lu tokens", (unsigned long)cntRet, (unsigned long)l->size(), (unsigned long)toks.n);
     size_t t = 0; for (List<String>::Iterator it = l->begin(), e = l->end(); it != e; ++it, ++t) { checkResult(*it, toks[t]); cnt("tokens_checked"); }
     afterOp(i, -1, -1, false);
     if (toks.n) { size_t k = R.below(toks.n); List<String>::Iterator it = l->begin(); for (size_t j = 0; j < k; ++j) ++it; storeResult(*it, toks[k]); }
-    setctx("List<String>.~List/arg-teardown"); delete l;
+    setctx("List<String>.~List/arg-teardown"); delete l; g_nHeld = 0;
   } else {
     Vec<Bytes> uniq; for (size_t t = 0; t < toks.n; ++t) { bool dup = false; for (size_t j = 0; j < uniq.n; ++j) if (uniq[j].eq(toks[t])) dup = true; if (!dup) uniq.push(toks[t]); }
     HashSet<String>* hs = new HashSet<String>((usize)R.range(1, 16)); setctx("HashSet<String>.append/arg-setup");
-    for (int t = (int)R.below(3); t > 0; --t) hs->append(str((int)R.below((u64)nvars)));
+    for (int t = (int)R.below(3); t > 0; --t) { int v = (int)R.below((u64)nvars); hs->append(str(v)); eViewed(v); eHeldByContainer(v); }   // (hashing takes the C-string view)
     ctxOp("split(HashSet)", i, -1, -1, false); hist.addf("v%d.split(HashSet, ", i); histVal(seps); hist.addf(", skipEmpty=%d)\n", (int)skipEmpty);
-    usize cntRet = defArg ? str(i).split(*hs, sp) : str(i).split(*hs, sp, skipEmpty);
+    usize cntRet = defArg ? str(i).split(*hs, sp) : str(i).split(*hs, sp, skipEmpty); eViewed(i); g_nHeld = 0;
     if (cntRet != uniq.n || hs->size() != uniq.n) failk("result", "split returned %lu / set size %lu, model %lu distinct tokens", (unsigned long)cntRet, (unsigned long)hs->size(), (unsigned long)uniq.n);
     size_t t = 0; for (HashSet<String>::Iterator it = hs->begin(), e = hs->end(); it != e; ++it, ++t) { checkResult(const_cast<String&>(*it), uniq[t]); cnt("tokens_checked"); }
     afterOp(i, -1, -1, false);
-    setctx("HashSet<String>.~HashSet/arg-teardown"); delete hs;
+    setctx("HashSet<String>.~HashSet/arg-teardown"); delete hs; g_nHeld = 0;
   }
   if (toks.n > 1) cnt("split_multi");
   dropTemps();
@@ -803,12 +862,25 @@ static bool op_cmp(int i) {
   bool eic = x.n == y.n && ci == 0;
   QCHECK(s.equalsIgnoreCase(o) == eic, "equalsIgnoreCase returned %d, model %d", (int)!eic, (int)eic);
   QCHECK(s.equalsIgnoreCase(o, len) == (cin == 0), "equalsIgnoreCase(len %lu) wrong, model %d", (unsigned long)len, (int)(cin == 0));
+  eViewed(i); eViewed(a);   // the compare family works on the C-string views of both sides
   afterOp(i, a);
   return true;
 }
 
 // pointer results are compared as offsets into the receiver's current buffer
-static long offOf(const String& s, const char* p) { if (!p) return -1; const char* base = s.data->str; if (p < base || p > base + s.data->len) failk("result", "returned pointer is outside the string's buffer"); return (long)(p - base); }
+static long offOf(int i, const char* p) {
+  if (!p) return -1; const String& s = str(i);
+#ifndef VERIF_NO_PRIVATE
+  const char* base = s.data->str; size_t len = s.data->len;
+#else
+  // the buffer the pointer must lie in: the memory the harness attached this String object to, if the pointer lies there (the String then still refers to it); otherwise the
+  // String has a buffer of its own, which is what the C-string view shows (taking it changes nothing then)
+  size_t len = s.length(); const char* base = S[i].ap;
+  if (!(base && p >= base && p <= base + len)) base = (const char*)s;
+#endif
+  if (p < base || p > base + len) failk("result", "returned pointer is outside the string's buffer");
+  return (long)(p - base);
+}
 static bool op_find(int i) {
   const Bytes& m = S[i].m; size_t n = m.n; String& s = str(i);
   Bytes nd; genNeedle(nd, &m, false); const char* np = cstrOf(nd);
@@ -817,16 +889,17 @@ static bool op_find(int i) {
   ctxOp("find-family", i, -1, -1, false); hist.addf("v%d.find*(0x%02x, ", i, c); histVal(nd); hist.addf(", start %lu)\n", (unsigned long)start);
   long r, e;
   // length-bounded searches (valid for any content)
-  r = offOf(s, s.find((char)c)); e = mFindChar(m, 0, c); QCHECK(r == e, "find(char) at %ld, model %ld", r, e); if (e >= 0) cnt("find_hits");
-  r = offOf(s, s.findLast((char)c)); e = mFindLastChar(m, c); QCHECK(r == e, "findLast(char) at %ld, model %ld", r, e);
+  r = offOf(i, s.find((char)c)); e = mFindChar(m, 0, c); QCHECK(r == e, "find(char) at %ld, model %ld", r, e); if (e >= 0) cnt("find_hits");
+  r = offOf(i, s.findLast((char)c)); e = mFindLastChar(m, c); QCHECK(r == e, "findLast(char) at %ld, model %ld", r, e);
   if (!m.hasNul()) {
-    r = offOf(s, s.find((char)c, start)); e = start >= n ? -1 : mFindChar(m, start, c); QCHECK(r == e, "find(char,start %lu) at %ld, model %ld", (unsigned long)start, r, e);
-    r = offOf(s, s.find(np)); e = mFind(m, 0, nd.d, nd.n); QCHECK(r == e, "find(str) at %ld, model %ld", r, e); if (e >= 0 && nd.n) cnt("find_hits");
-    r = offOf(s, s.find(np, start)); e = start >= n ? -1 : mFind(m, start, nd.d, nd.n); QCHECK(r == e, "find(str,start %lu) at %ld, model %ld", (unsigned long)start, r, e);
-    r = offOf(s, s.findOneOf(np)); e = mFindOneOf(m, 0, nd.d, nd.n); QCHECK(r == e, "findOneOf at %ld, model %ld", r, e);
-    r = offOf(s, s.findOneOf(np, start)); e = start >= n ? -1 : mFindOneOf(m, start, nd.d, nd.n); QCHECK(r == e, "findOneOf(start %lu) at %ld, model %ld", (unsigned long)start, r, e);
-    if (nd.n) { r = offOf(s, s.findLast(np)); e = mFindLast(m, nd.d, nd.n); QCHECK(r == e, "findLast(str) at %ld, model %ld", r, e); }   // empty needle: precondition (walks past the terminator)
-    r = offOf(s, s.findLastOf(np)); e = mFindLastOf(m, nd.d, nd.n); QCHECK(r == e, "findLastOf at %ld, model %ld", r, e);
+    r = offOf(i, s.find((char)c, start)); e = start >= n ? -1 : mFindChar(m, start, c); QCHECK(r == e, "find(char,start %lu) at %ld, model %ld", (unsigned long)start, r, e);
+    r = offOf(i, s.find(np)); e = mFind(m, 0, nd.d, nd.n); QCHECK(r == e, "find(str) at %ld, model %ld", r, e); if (e >= 0 && nd.n) cnt("find_hits");
+    r = offOf(i, s.find(np, start)); e = start >= n ? -1 : mFind(m, start, nd.d, nd.n); QCHECK(r == e, "find(str,start %lu) at %ld, model %ld", (unsigned long)start, r, e);
+    r = offOf(i, s.findOneOf(np)); e = mFindOneOf(m, 0, nd.d, nd.n); QCHECK(r == e, "findOneOf at %ld, model %ld", r, e);
+    r = offOf(i, s.findOneOf(np, start)); e = start >= n ? -1 : mFindOneOf(m, start, nd.d, nd.n); QCHECK(r == e, "findOneOf(start %lu) at %ld, model %ld", (unsigned long)start, r, e);
+    if (nd.n) { r = offOf(i, s.findLast(np)); e = mFindLast(m, nd.d, nd.n); QCHECK(r == e, "findLast(str) at %ld, model %ld", r, e); }   // empty needle: precondition (walks past the terminator)
+    r = offOf(i, s.findLastOf(np)); e = mFindLastOf(m, nd.d, nd.n); QCHECK(r == e, "findLastOf at %ld, model %ld", r, e);
+    eViewed(i);   // the C-string based searches take the view
   }
   afterOp(i);
   return true;
@@ -913,17 +986,17 @@ static void runCase(long idx) {
   int w[NOPS], tot = 0;
   for (int k = 0; k < NOPS; ++k) { w[k] = r.chance(1, 4) ? 0 : OPS[k].w * (int)r.range(1, 4); if (g_nul && !OPS[k].nulSafe) w[k] = 0; tot += w[k]; }
   if (!w[0]) { w[0] = 2; tot += 2; } if (!w[1]) { w[1] = 3; tot += 3; }
-  g_sawShared = g_mutShared = g_mutAttached = g_selfArg = false; g_fp = 0;
+  g_sawShared = g_mutShared = g_mutAttached = g_selfArg = false; g_fp = 0; g_nHeld = 0;
   hist.addf("# String history: %d variables, %d ops, alphabet \"", nvars, nops); hist.addEsc(g_alpha, (size_t)g_nalpha); hist.addf("\", bytes-mode %d, nul-mode %d, view 1/%d\n", (int)g_bytesMode, (int)g_nul, g_viewDen);
-  for (int i = 0; i < NSLOT; ++i) { S[i].s = 0; S[i].src = -1; S[i].argcls = 0; S[i].m.assign("", 0); }
+  for (int i = 0; i < NSLOT; ++i) { S[i].s = 0; S[i].src = -1; S[i].argcls = 0; S[i].m.assign("", 0); S[i].ek = ST_EMPTY; S[i].eg = 0; S[i].ap = 0; }
   setctx("String.String()/case-setup");
   for (int i = 0; i < nvars; ++i) S[i].s = new String;
   for (int i = 0; i < nvars; ++i) op_construct(i);
   if (g_nul) cnt("nul_mode_cases");
   for (int o = 0; o < nops; ++o) {
     int i = (int)r.below((u64)nvars);
-    if (r.chance(1, 2)) { int off = (int)r.below((u64)nvars); for (int k = 0; k < nvars; ++k) { int j = (off + k) % nvars; if (stateOf(str(j)) != ST_EXCL) { i = j; break; } } }   // prefer receivers that do not own their buffer exclusively
-    if (S[i].m.n > BIGLEN) { if (r.chance(1, 2)) op_clear(i); else { ctxOp("resize/shrink-big", i, -1, -1, true); size_t n = (size_t)r.below(20); hist.addf("v%d.resize(%lu)\n", i, (unsigned long)n); str(i).resize(n); S[i].m.assign(S[i].m.d, n); afterOp(i); } continue; }
+    if (r.chance(1, 2)) { int off = (int)r.below((u64)nvars); for (int k = 0; k < nvars; ++k) { int j = (off + k) % nvars; if (stateOfSlot(j) != ST_EXCL) { i = j; break; } } }   // prefer receivers that do not own their buffer exclusively
+    if (S[i].m.n > BIGLEN) { if (r.chance(1, 2)) op_clear(i); else { ctxOp("resize/shrink-big", i, -1, -1, true); size_t n = (size_t)r.below(20); hist.addf("v%d.resize(%lu)\n", i, (unsigned long)n); str(i).resize(n); S[i].m.assign(S[i].m.d, n); eMutated(i); afterOp(i); } continue; }
     int pick = (int)r.below((u64)tot), k = 0; while (pick >= w[k]) pick -= w[k++];
     if (OPS[k].fn(i)) cnt(g_opCntName[k]);
     for (int j = 0; j < nvars; ++j) statMax("max_length", (long)S[j].m.n);
@@ -979,6 +1052,7 @@ int main(int argc, char** argv) {
   caseTables();
   for (long idx = opts.start; idx < opts.start + opts.cases; ++idx) { if (!mine(idx)) continue; runCase(idx); }
   cnt("bytes_compared", g_bytesCompared); cnt("variable_checks", g_varChecks); cnt("view_terminator_checks", g_viewChecks); cnt("source_block_checks", g_srcChecks); cnt("result_string_checks", g_resultChecks);
+  if (g_recAgree || g_recDiffer) { cnt("state_record_agrees_with_private_state", g_recAgree); cnt("state_record_differs_from_private_state", g_recDiffer); }
   leakCheck("String/leak");
   finish();
   return 0;
